@@ -1126,8 +1126,6 @@ Qed.
 (* Part 3: trace validation                                                                  *)
 (* ======================================================================================== *)
 
-Definition names_okb (tr : list event) : bool :=
-  forallb (fun e => match e with EvL _ _ n => name_ok n | _ => true end) tr.
 Lemma names_okb_spec tr : names_okb tr = true -> names_ok tr.
 Proof.
   unfold names_okb, names_ok. intros H c h n I. rewrite forallb_forall in H. apply (H _ I).
